@@ -23,34 +23,35 @@ import (
 
 // Result is what one simulated run reports to the orchestrator.
 type Result struct {
-	Cfg        RunCfg         `json:"cfg"`
-	Violations []Violation    `json:"violations"`
-	Harness    string         `json:"harness,omitempty"` // harness trouble (exit 2)
-	Deadlock   string         `json:"deadlock,omitempty"`
-	Stuck      string         `json:"stuck,omitempty"`
-	Steps      int            `json:"steps"`
-	Quiescents int            `json:"quiescents"`
-	Decisions  uint64         `json:"decisions"`
-	FastPasses uint64         `json:"fast_passes"`
-	Parks      uint64         `json:"parks"`
-	Locks      int            `json:"locks"`
-	MaxParked  int            `json:"max_parked"`
-	SchedSig   string         `json:"sched_sig"`
-	SimMs      int64          `json:"sim_ms"`
-	WallMs     int64          `json:"wall_ms"`
-	Faults     map[string]int `json:"faults"`
-	Probes     map[string]int `json:"probes"`
-	States     []uint64       `json:"states,omitempty"`
-	NStates    int            `json:"nstates"`
-	Bound      int            `json:"bound"`
-	SIEvents   int            `json:"si_events"`
-	Ops        []Op           `json:"ops,omitempty"`
-	Sample     []SIEvent      `json:"sample,omitempty"`
-	Notes      []string       `json:"notes,omitempty"`
-	OpsSig     string         `json:"ops_sig"`
-	UnnamedKey int            `json:"unnamed_keys"`
-	Goroutines int            `json:"goroutines"`
-	ConfYAML   string         `json:"conf_yaml,omitempty"`
+	Cfg        RunCfg            `json:"cfg"`
+	Violations []Violation       `json:"violations"`
+	Harness    string            `json:"harness,omitempty"` // harness trouble (exit 2)
+	Deadlock   string            `json:"deadlock,omitempty"`
+	Stuck      string            `json:"stuck,omitempty"`
+	Steps      int               `json:"steps"`
+	Quiescents int               `json:"quiescents"`
+	Decisions  uint64            `json:"decisions"`
+	FastPasses uint64            `json:"fast_passes"`
+	Parks      uint64            `json:"parks"`
+	Locks      int               `json:"locks"`
+	MaxParked  int               `json:"max_parked"`
+	SchedSig   string            `json:"sched_sig"`
+	SimMs      int64             `json:"sim_ms"`
+	WallMs     int64             `json:"wall_ms"`
+	Faults     map[string]int    `json:"faults"`
+	Probes     map[string]int    `json:"probes"`
+	States     []uint64          `json:"states,omitempty"`
+	NStates    int               `json:"nstates"`
+	Bound      int               `json:"bound"`
+	SIEvents   int               `json:"si_events"`
+	Ops        []Op              `json:"ops,omitempty"`
+	Sample     []SIEvent         `json:"sample,omitempty"`
+	Notes      []string          `json:"notes,omitempty"`
+	OpsSig     string            `json:"ops_sig"`
+	UnnamedKey int               `json:"unnamed_keys"`
+	Goroutines int               `json:"goroutines"`
+	Frozen     []json.RawMessage `json:"frozen,omitempty"`
+	ConfYAML   string            `json:"conf_yaml,omitempty"`
 }
 
 func envOr(k, d string) string {
@@ -167,12 +168,17 @@ func RunOne(t *testing.T, cfg RunCfg, out string) {
 		s.rng = NewRng(cfg.Seed, "ops")
 		s.frng = NewRng(cfg.Seed, "faults")
 		s.mrng = NewRng(cfg.Seed, "malformed")
+		s.zrng = NewRng(cfg.Seed, "freeze")
+		s.shim.onCallback = func() { s.freeze("callback") }
 		pf, ok := profiles[cfg.Profile]
 		if !ok {
 			pf = profiles["base"]
 		}
 		s.pf = pf
-		if cfg.World != nil {
+		if cfg.Restore != nil {
+			s.world = cfg.Restore.World
+			s.world.Conf = cfg.Restore.Conf
+		} else if cfg.World != nil {
 			s.world = cfg.World
 		} else {
 			s.world = GenWorld(cfg.Seed, pf)
@@ -233,6 +239,7 @@ func RunOne(t *testing.T, cfg RunCfg, out string) {
 		res.UnnamedKey = simseam.UnnamedKeys
 		res.Goroutines = countGoroutines(c.root)
 		res.ConfYAML = s.world.Conf.YAML()
+		res.Frozen = frozenList(s.frozen)
 		h := uint64(14695981039346656037)
 		for _, o := range s.ops {
 			b, _ := json.Marshal(o)
@@ -335,13 +342,18 @@ func (s *Sim) drive() {
 	}
 	s.c.settle()
 	s.post = TakeSnap(s.sc.Scheduler, s.part)
+	if s.cfg.Restore != nil {
+		s.recoverFrom(s.cfg.Restore)
+	}
 	if len(s.cfg.Ops) > 0 {
 		for _, op := range s.cfg.Ops {
 			s.playOp(op)
 		}
 	} else {
-		s.setupPhase()
-		for s.steps < s.cfg.Steps {
+		if s.cfg.Restore == nil {
+			s.setupPhase()
+		}
+		for s.steps < s.cfg.Steps+s.recoverySteps() {
 			op, ok := s.genOp()
 			if !ok {
 				break
@@ -530,4 +542,11 @@ func (s *Sim) checkDrained() {
 func (s *Sim) finish() {
 	// the process exits right after the result is written: the services are not stopped (a stop after a violated
 	// invariant can crash before the result is out)
+}
+
+func (s *Sim) recoverySteps() int {
+	if s.cfg.Restore == nil {
+		return 0
+	}
+	return s.recSteps
 }
